@@ -1275,9 +1275,11 @@ pub fn replay_case(case: &serde_json::Value) -> String {
     }
   }
   let mut last = String::from("(no request)");
-  let mut last_ok = true;
+  let mut verdict: Option<bool> = None;
+  let expected = case.get("expected").and_then(|e| e.as_str()).unwrap_or("");
   if let Some(reqs) = case.get("requests").and_then(|r| r.as_array()) {
-    for r in reqs {
+    let n = reqs.len();
+    for (k, r) in reqs.iter().enumerate() {
       let method: &'static str = if r.get("method").and_then(|m| m.as_str()) == Some("GET") { "GET" } else { "POST" };
       let ct: Option<&'static str> = match r.get("content_type").and_then(|m| m.as_str()) {
         Some("application/json") => Some("application/json"),
@@ -1288,23 +1290,58 @@ pub fn replay_case(case: &serde_json::Value) -> String {
       let req = Req { method, path: r.get("path").and_then(|p| p.as_str()).unwrap_or("/").to_string(), content_type: ct, body };
       match send(server.port, &req) {
         Ok(resp) => {
-          last_ok = parse_json(&resp.body).is_ok();
           last = format!("{} {} -> {} {}", req.method, req.path, resp.status, String::from_utf8_lossy(&resp.body).chars().take(300).collect::<String>());
+          if k + 1 == n {
+            // the last exchange is judged the way the engine judged it
+            verdict = Some(match parse_json(&resp.body) {
+              Err(_) => false,
+              Ok(doc) => {
+                let data = doc.get("data").cloned();
+                let has_errors = matches!(doc.get("errors"), Some(Js::Arr(es)) if !es.is_empty());
+                if expected.starts_with("well-formed JSON with errors") {
+                  has_errors || (req.path.contains("NoSuchInvocable") && data == Some(Js::Null))
+                } else if expected.starts_with("well-formed") || expected.is_empty() {
+                  data.is_some() || has_errors
+                } else if expected == "data" {
+                  data.is_some()
+                } else if expected == "errors" {
+                  has_errors
+                } else if req.path.starts_with("/tck/") {
+                  match (data.as_ref().and_then(|d| tck_decode(d).ok()), parse_json(expected.as_bytes())) {
+                    (Some(got), Ok(want)) => got.same(&want),
+                    _ => false,
+                  }
+                } else if req.path.starts_with("/evaluate/echo/") {
+                  match (data, parse_json(expected.as_bytes())) {
+                    (Some(got), Ok(want)) => got.same(&want),
+                    _ => false,
+                  }
+                } else if req.path.starts_with("/evaluate/") {
+                  // expected is the Debug rendering of Option<String>: None, or Some("\"content 1\"")
+                  let got = match data {
+                    Some(Js::Str(s)) => Some(format!("\"{}\"", s)),
+                    Some(other) => Some(other.show()),
+                    None => None,
+                  };
+                  format!("{:?}", got) == expected
+                } else {
+                  data.is_some() || has_errors
+                }
+              }
+            });
+          }
         }
         Err(e) => {
-          last_ok = false;
           last = format!("{} {} -> no answer: {}", req.method, req.path, e);
+          if k + 1 == n {
+            verdict = Some(false);
+          }
         }
       }
     }
   }
-  let expected = case.get("expected").and_then(|e| e.as_str()).unwrap_or("");
-  // the replay shows the last exchange; it fails when the last body is not JSON or does not contain the expected rendering
-  let body_part = last.splitn(2, "-> ").nth(1).unwrap_or("");
-  let matches_expected = expected.is_empty() || expected.starts_with("well-formed") || expected == "data" || expected == "errors" || body_part.contains(expected.trim_matches('"')) || (expected == "None" && body_part.contains("errors"));
-  if last_ok && matches_expected {
-    format!("PASS {}", last)
-  } else {
-    format!("FAIL {} (prescribed: {})", last, expected)
+  match verdict {
+    Some(true) | None => format!("PASS {}", last),
+    Some(false) => format!("FAIL {} (prescribed: {})", last, expected),
   }
 }
